@@ -525,7 +525,8 @@ func TestVerifC09ExchangeDirs(t *testing.T) {
 		})
 }
 
-var verifC09Paths = []string{"a", "ab", "abc", "b/c", "b/d", "index.html"}
+// "b/a": the same base name as the top-level "a", in another directory
+var verifC09Paths = []string{"a", "ab", "abc", "b/c", "b/a", "index.html"}
 
 func TestVerifC09Dirs(t *testing.T) {
 	c := int(boson.ChunkSize)
